@@ -14,7 +14,7 @@ for d in sorted(glob.glob(os.path.join(ROOT, "seeded", "C*"))):
     subs = sorted({re.search(r"check=(\S+)", c).group(1) for c in m.get("caught_by", []) if "check=" in c})
     kinds = sorted({re.search(r"kind=([^:]+)", c).group(1)[:60] for c in m.get("caught_by", []) if "kind=" in c})
     rows.append("| %s | %s | %s | %s | %s |" % (os.path.basename(d), m["property"], title.replace("|", "/")[:140],
-                ("obsolete (was detected)" if m.get("obsolete_since") else "yes" if m["detected"] else "**no**"), ", ".join("`%s`" % s for s in subs) + (" — " + "; ".join(kinds) if kinds else "")))
+                ("obsolete (was detected)" if m.get("obsolete_since") else "yes" if m["detected"] else "no - " + m["not_demanded"][:160] if m.get("not_demanded") else "**no**"), ", ".join("`%s`" % s for s in subs) + (" — " + "; ".join(kinds) if kinds else "")))
 out = ["# Seeded changes", "",
        "Each directory holds a change written by an independent sub-agent that saw only the property text and a scratch",
        "worktree of the library (nothing from /verif): `patch.diff`, its demonstration test, its `notes.md`, and `meta.json`",
